@@ -27,11 +27,17 @@ RULE = ('script trees: 1..8 directories (depth <= 5, names incl. blanks, dots, a
         'under test (does a nameless option string raise ValueError?) is probed on the real function; the model runs as that '
         'variant and the finding C19-x-alias-empty-name applies only to the unrepaired one - on the repaired one an accepted '
         'nameless declaration is reported with the command line whose two spellings differ.  A case is non-trivial when the tree has a nested submodule or a rejected/../ path '
-        '(scripts) resp. at least one accepted declaration and one option token (arguments); distinct by exact text.')
+        '(scripts) resp. at least one accepted declaration and one option token (arguments); distinct by exact text. '
+        'Sibling projects: a near-prefix family of directory names (app/apputil, lib/lib64, a/ab ...) plus a control name, '
+        'optionally below 1-2 parents; 1-3 scripted directories compiling own files and siblings\' files through ../ as '
+        'executable/library (default intermediate directory or intermediate_dir=), object_file(directory=), '
+        'copy_file(directory=).')
 TRUSTED = ('Python semantics of exec / name lookup beyond globals-then-builtins; argparse (only the registration, '
            'defaults and long-option parsing fragment is modelled, checked against the real parser each run)',
            'os.path.expanduser modelled as the identity (no generated path starts with a tilde of an existing user)',
            'direct oracles: unique-value provenance of every read/export, os.path.normpath on the real scratch tree',
+           'sibling-directory oracle: the documented placement rule written on component lists (predicted_within in harness/c19.py: '
+           'path relative to the parent of the output directory, PAR per step up)',
            'variant detection: the probe (harness/c19.py alias_variant) calls the real add_user_argument of the tree under test '
            'with a nameless second option string and looks at ValueError / the registered strings; an undecidable probe is '
            'reported, not assumed')
@@ -1333,6 +1339,186 @@ def stage_output_builtins(rep, depth=2):
     return bad
 
 
+# ------------------------------------------------------------------------------------- sibling directories, near-prefix names
+# (name of a directory, a sibling whose name continues it): the second has the first as a proper string prefix, so string
+# and component comparisons of the two paths differ
+NAME_FAMILIES = [('app', 'apputil'), ('lib', 'lib64'), ('lib', 'libextra'), ('a', 'ab'), ('src', 'src2'), ('x.y', 'x.y.z'),
+                 ('d e', 'd e2'), ('core', 'core-tests'), ('t', 't.d'), ('mod', 'mod_a')]
+
+
+def rel_components(target, start):
+    """the path of [target] as seen from the directory [start], component lists, by the common COMPONENT prefix"""
+    k = 0
+    while k < len(target) and k < len(start) and target[k] == start[k]:
+        k += 1
+    return ['..'] * (len(start) - k) + list(target[k:])
+
+
+def predicted_within(src_comps, dir_comps, strip_ext=None):
+    """The documented placement of a file inside an output directory: its path relative to the directory's parent, every
+    step to a parent directory written PAR, appended to the directory."""
+    rel = ['PAR' if c == '..' else c for c in rel_components(src_comps, dir_comps[:-1])]
+    if strip_ext is not None:
+        rel[-1] = posixpath.splitext(rel[-1])[0] + strip_ext
+    return list(dir_comps) + rel
+
+
+def gen_sibling_project(rng):
+    """Sibling directories X, X<more> (a near-prefix family), a control directory with an unrelated name, optionally all
+    below a common parent; 1-3 of them carry a build script that compiles own files and files of the siblings reached through
+    ../ - as sources of an executable / a library (default intermediate directory, or intermediate_dir=), with
+    object_file(directory=) and copy_file(directory=). Own files include the one at the remainder that string-stripping the
+    own name from the sibling's path would leave (app/util/x.c next to ../apputil/x.c)."""
+    X, Y = rng.choice(NAME_FAMILIES)
+    ctl = rng.choice(['tools', 'zz', 'other'])
+    pre = rng.choice([[], [], ['top'], ['top', 'mid']])
+    dirs = [X, Y, ctl]
+    scripted = rng.sample(dirs, rng.choice([1, 2, 2, 3]))
+    if X not in scripted and rng.random() < 0.7:
+        scripted[0] = X
+    rest = Y[len(X):].lstrip('-_. ') or 'r'
+    files = set()
+    scripts = []
+    for D in scripted:
+        sibs = [d for d in dirs if d != D]
+        shared = []
+        for sdir in rng.sample(sibs, rng.choice([1, 2])):
+            shared += [['..', sdir, 'x.c']] + ([['..', sdir, 'sub', 'y.c']] if rng.random() < 0.5 else [])
+        own = [['main.c'], [rest, 'x.c'], ['x.c'], ['sub', 'y.c'], [Y[len(X):] or 'q', 'x.c'], ['PARENT', 'x.c']]
+        own = [o for i, o in enumerate(own) if all(c not in ('', '.', '..') and '/' not in c for c in o) and o not in own[:i]]
+        own = [own[0]] + rng.sample(own[1:], rng.randint(1, min(3, len(own) - 1)))
+        srcs = own + shared
+        rng.shuffle(srcs)
+        stmts = []
+        kind = rng.choice(['executable', 'executable', 'static_library', 'shared_library'])
+        nm = rng.choice(['prog', 'p', X, 'o/prog'])
+        idir = rng.choice([None, None, 'objs/', 'o d/i'])
+        stmts.append({'what': 'link', 'kind': kind, 'name': nm, 'files': srcs, 'intermediate_dir': idir})
+        for f in rng.sample(shared + own, 2):
+            stmts.append({'what': 'object_file', 'file': f, 'directory': rng.choice(['od', 'o/d', X, rest])})
+        for f in rng.sample(shared, 1):
+            stmts.append({'what': 'copy_file', 'file': f, 'directory': rng.choice(['cp', 'c/p', rest])})
+        scripts.append({'dir': D, 'stmts': stmts})
+        for f in srcs:
+            files.add(posixpath.normpath('/'.join(pre + [D] + f)))
+    return {'pre': pre, 'dirs': dirs, 'scripts': scripts, 'files': sorted(files)}
+
+
+def sibling_expectations(proj):
+    """-> [(label, script dir comps, python expression, expected repr, [(source comps, output comps)])]"""
+    out = []
+    k = 0
+    for sc in proj['scripts']:
+        here = proj['pre'] + [sc['dir']]
+        for st in sc['stmts']:
+            k += 1
+            label = 'S%d' % k
+
+            def src_of(f):
+                return posixpath.normpath('/'.join(here + f)).split('/')
+            if st['what'] == 'link':
+                base = {'executable': '', 'static_library': 'lib', 'shared_library': 'lib'}[st['kind']]
+                ncomps = st['name'].split('/')
+                idir = st['intermediate_dir'] or '/'.join(ncomps[:-1] + [base + ncomps[-1] + '.int'])
+                dcomps = here + [c for c in idir.split('/') if c]
+                pairs = [(src_of(f), predicted_within(src_of(f), dcomps, '.o')) for f in st['files']]
+                kw = '' if st['intermediate_dir'] is None else ', intermediate_dir=%r' % st['intermediate_dir']
+                expr = '[f.path for f in %s(%r, files=%r%s).creator.files]' % (
+                    st['kind'], st['name'], ['/'.join(f) for f in st['files']], kw)
+                want = '[' + ', '.join('`$(builddir)/%s`' % '/'.join(o) for _, o in pairs) + ']'
+            else:
+                dcomps = here + st['directory'].split('/')
+                o = predicted_within(src_of(st['file']), dcomps, '.o' if st['what'] == 'object_file' else None)
+                pairs = [(src_of(st['file']), o)]
+                expr = '%s(file=%r, directory=%r).path' % (st['what'], '/'.join(st['file']), st['directory'])
+                want = '`$(builddir)/%s`' % '/'.join(o)
+            out.append((label, here, expr, want, pairs, st))
+    return out
+
+
+def run_sibling_project(rep, proj):
+    from bfg9000 import build
+    _setup_impl()
+    d = common.scratch('c19s')
+    bad = 0
+    try:
+        src, bld = os.path.join(d, 'src'), os.path.join(d, 'bld')
+        os.makedirs(src)
+        os.makedirs(bld)
+        for f in proj['files']:
+            os.makedirs(os.path.dirname(os.path.join(src, f)), exist_ok=True)
+            open(os.path.join(src, f), 'w').write('int f_%s(void) { return 0; }\n' % re.sub(r'\W', '_', f))
+        exps = sibling_expectations(proj)
+        with open(os.path.join(src, FN_BUILD), 'w') as f:
+            f.write("project('p')\n")
+            for sc in proj['scripts']:
+                f.write('submodule(%r)\n' % '/'.join(proj['pre'] + [sc['dir']]))
+        for sc in proj['scripts']:
+            here = proj['pre'] + [sc['dir']]
+            os.makedirs(os.path.join(src, *here), exist_ok=True)
+            with open(os.path.join(src, *here, FN_BUILD), 'w') as f:
+                for label, h, expr, want, pairs, st in exps:
+                    if h == here:
+                        f.write("try:\n    _rec('outb', %r, repr(%s))\nexcept Exception as e:\n"
+                                "    _rec('outb', %r, 'exception ' + type(e).__name__ + ': ' + str(e))\n" % (label, expr, label))
+        env = make_env(src, bld)
+        _STATE['log'] = []
+        cwd = os.getcwd()
+        err = None
+        try:
+            build.configure_build(env)
+        except Exception as e:
+            err = '%s: %s' % (type(e).__name__, e)
+        finally:
+            os.chdir(cwd)
+        seen = {r[3]: r[4] for r in _STATE['log'] if r[2] == 'outb'}
+        rep.case('sib:' + json.dumps(proj, sort_keys=True), True)
+        if err:
+            bad += 1
+            rep.fail('a project of sibling directories %r does not configure: %s' % (proj['dirs'], err),
+                     {'kind': 'siblings', 'project': proj, 'error': err}, classes=())
+        outputs = {}
+        for label, here, expr, want, pairs, st in exps:
+            got = seen.get(label, 'no record')
+            rep.count('siblings:' + st['what'] + (':intermediate_dir=' if st.get('intermediate_dir') else ''))
+            if got != want:
+                bad += 1
+                rep.fail('in the script of %r (siblings %r): %s gives %s; by the documented rule (path relative to the parent of '
+                         'the output directory, PAR for each step up) it is %s' % ('/'.join(here), proj['dirs'], expr, got, want),
+                         {'kind': 'siblings', 'project': proj, 'label': label, 'expr': expr, 'got': got, 'want': want}, classes=())
+            # distinct source files -> distinct outputs, as the implementation placed them
+            for m in re.findall(r'`\$\(builddir\)/([^`]*)`', got):
+                outputs.setdefault(m, []).append((label, expr))
+        for o, users in outputs.items():
+            if len(users) > 1 and not same_step_twice(exps, users, o):
+                bad += 1
+                rep.fail('two steps of different source files write the one output %r: %r' % (o, [u[1] for u in users]),
+                         {'kind': 'siblings', 'project': proj, 'output': o, 'steps': users}, classes=())
+    finally:
+        shutil.rmtree(d, ignore_errors=True)
+    return bad
+
+
+def same_step_twice(exps, users, o):
+    """the same source compiled into the same directory twice (object_file of a file that the link step of the script also
+    compiles with the same directory) is one step, not a collision of distinct inputs"""
+    srcs = set()
+    for label, here, expr, want, pairs, st in exps:
+        if label in [u[0] for u in users]:
+            for s_, o_ in pairs:
+                if '/'.join(o_) == o:
+                    srcs.add(tuple(s_))
+    return len(srcs) <= 1
+
+
+def stage_siblings(rep, rng, n):
+    bad = 0
+    for _ in range(n):
+        bad += run_sibling_project(rep, gen_sibling_project(rng))
+    rep.stage('oracle:sibling-directories', projects=n, failures=bad)
+    return bad
+
+
 # ------------------------------------------------------------------------------------- entry points
 def load_corpus():
     out = []
@@ -1380,6 +1566,7 @@ def run(rep):
     stage_output_builtins(rep, 2)
     if thorough:
         stage_output_builtins(rep, 1)
+    stage_siblings(rep, rng, 200 if thorough else 30)
     stage_real_configure(rep, rng, 40 if thorough else 3, bi_build)
     stage_persist(rep, rng, 8 if thorough else 1)
 
@@ -1400,6 +1587,10 @@ def replay(rep, path):
                 rep.fail(what, {'tree': t.to_json(), 'trace': log, 'end': end}, classes=classes)
         finally:
             shutil.rmtree(d, ignore_errors=True)
+        return
+    if r.get('kind') == 'siblings':
+        if not run_sibling_project(rep, r['project']):
+            print('replayed project no longer fails')
         return
     if 'argv_x' in r:
         select_findings(rep)
